@@ -22,6 +22,10 @@ import ScVerif.C09.Subs
                                   `<seeds>` (`;`-separated, `-` = none) and scheduled greedily: kinds `pull` /
                                   `id:<i>` (PullID); moves `s:<change>` (Bus.Send) / `d<k>` (consumer k receives)
                                   → per move `[<out>@]<seen0>/<seen1>/…`, then per subscriber `|` and its drain
+* `brun <seed> <move>*`           one backpressured subscriber (`bstep`) and ONE writer: moves `w` (the writer starts its
+                                  next write `t<n>` unless one is still waiting) / `d` (the consumer receives; a waiting
+                                  write then goes through) → per move `ok:t` | `wait:t` | `still:t` / `<value|none>[+t]`,
+                                  then `|` and what a consumer draining to quiescence receives
 * `set <deadline> <listener>*`    `Value.set` after its commit: `Bus.Send` as above, then the error mapping
                                   (`setReturnsError`) → `error@<t>` or `ok@<t>`
 -/
@@ -167,8 +171,52 @@ def cdrain : Nat → SSub → List String
     | "closed" => ["closed"]
     | o => o :: cdrain n (greedy (subStep s .deliver))
 
+/-! #### one backpressured subscriber, one writer -/
+
+structure BDrv where
+  c : BCfg String
+  pending : Option String
+  next : Nat
+
+def boffer (c : BCfg String) (t : String) : BCfg String × Bool :=
+  let c' := bstep c (.offer t)
+  (c', c.inHand.isNone)
+
+def brunDrv : BDrv → List String → List String → Option (List String × BDrv)
+  | st, [], acc => some (acc.reverse, st)
+  | st, "w" :: ms, acc =>
+    match st.pending with
+    | some t => brunDrv st ms (("still:" ++ t) :: acc)
+    | none =>
+      let t := "t" ++ toString st.next
+      let r := boffer st.c t
+      if r.2 then brunDrv { st with c := r.1, next := st.next + 1 } ms (("ok:" ++ t) :: acc)
+      else brunDrv { st with pending := some t, next := st.next + 1 } ms (("wait:" ++ t) :: acc)
+  | st, "d" :: ms, acc =>
+    let o := match st.c.inHand with | some v => v | none => "none"
+    let c' := bstep st.c .deliver
+    match st.pending with
+    | some t => brunDrv { st with c := (boffer c' t).1, pending := none } ms ((o ++ "+" ++ t) :: acc)
+    | none => brunDrv { st with c := c' } ms (o :: acc)
+  | _, _ :: _, _ => none
+
+def bdrain : Nat → BDrv → List String
+  | 0, _ => []
+  | n + 1, st =>
+    match st.c.inHand with
+    | some v =>
+      let c' := bstep st.c .deliver
+      match st.pending with
+      | some t => v :: bdrain n { st with c := (boffer c' t).1, pending := none }
+      | none => v :: bdrain n { st with c := c' }
+    | none => []
+
 def handle? (toks : List String) : Option String :=
   match toks with
+  | "brun" :: seed :: ms => do
+    let c0 : BCfg String := if seed = "-" then BCfg.init else ⟨some seed, [], [seed]⟩
+    let r ← brunDrv ⟨c0, none, 1⟩ ms []
+    pure (showOuts r.1 ++ "|" ++ showOuts (bdrain 4 r.2))
   | "vrun" :: eq :: mask :: seed :: ms => do
     let E ← namedEquiv? eq
     let F ← namedFilter? mask
